@@ -9,7 +9,7 @@ import (
 )
 
 func init() {
-	register(&PropCheck{ID: "C13", Pkgs: []string{"./service", "./netio", "./stats"}, Run: runC13})
+	register(&PropCheck{ID: "C13", AnchorsInlined: true, Pkgs: []string{"./service", "./netio", "./stats"}, Run: runC13})
 }
 
 func runC13(p *Prog, r *Report) {
@@ -277,7 +277,29 @@ func c13R2(p *Prog, r *Report) {
 		}
 	}
 	for _, cs := range fc.AllCalls() {
-		if sel, ok := ast.Unparen(cs.Call.Fun).(*ast.SelectorExpr); ok && sel.Sel.Name == "Read" && len(cs.Call.Args) == 1 && isReqField(cs.Call.Args[0], "Payload") {
+		sel, ok := ast.Unparen(cs.Call.Fun).(*ast.SelectorExpr)
+		if !ok || sel.Sel.Name != "Read" || len(cs.Call.Args) != 1 {
+			continue
+		}
+		// the wait read fills the request payload: directly, or through a local buffer that is
+		// assigned (possibly resliced) to req.Payload afterwards
+		into := isReqField(cs.Call.Args[0], "Payload")
+		if !into {
+			if buf := sliceRoot(info, cs.Call.Args[0]); buf != nil {
+				after := fc.G.ReachAfter(cs.V, nil, nil)
+				for _, d := range payloadDefs {
+					as := fc.G.V[d].Node.(*ast.AssignStmt)
+					for i, l := range as.Lhs {
+						if ls, ok := ast.Unparen(l).(*ast.SelectorExpr); ok && ls.Sel.Name == "Payload" && i < len(as.Rhs) && after[d] {
+							if sliceFlowsFrom(fc, as.Rhs[i], buf, 0) {
+								into = true
+							}
+						}
+					}
+				}
+			}
+		}
+		if into {
 			c := cs
 			readCall = &c
 		}
@@ -321,22 +343,58 @@ func c13R2(p *Prog, r *Report) {
 		r.Check(g, rule, "service.(*TCPRelay).handleConn:wait-only-when-needed", readCall.Pos(), "the wait read happens only for an empty payload, a native-payload client and an allowing listener", "the relay reads from the client before dialling outside the documented conditions (e.g. although the request already carried a payload, which is then overwritten and lost)")
 		r.Check(!fc.G.ReachAfter(readCall.V, nil, nil)[readCall.V], rule, "service.(*TCPRelay).handleConn:single-wait-read", readCall.Pos(), "one Read", "the wait read can repeat: earlier bytes are overwritten")
 		cnt := readCall.ResultVar(0)
-		// payload defs: make before the read; reslice [:count] after it
-		var mk, reslice = -1, -1
-		for _, d := range payloadDefs {
-			as := fc.G.V[d].Node.(*ast.AssignStmt)
-			rhs := ast.Unparen(as.Rhs[0])
-			if c, ok := rhs.(*ast.CallExpr); ok {
-				if id, ok := ast.Unparen(c.Fun).(*ast.Ident); ok && id.Name == "make" {
-					mk = d
-					continue
-				}
+		// the buffer the read fills: req.Payload itself, or a local that is handed to it later
+		bufIsReq := isReqField(readCall.Call.Args[0], "Payload")
+		var bufObj types.Object
+		if !bufIsReq {
+			bufObj = sliceRoot(info, readCall.Call.Args[0])
+		}
+		isBuf := func(e ast.Expr) bool {
+			if bufIsReq {
+				return isReqField(e, "Payload")
 			}
-			if sl, ok := rhs.(*ast.SliceExpr); ok && sl.Low == nil && isReqField(sl.X, "Payload") && cnt != nil && objOf(info, sl.High) == cnt {
-				reslice = d
+			return bufObj != nil && objOf(info, e) == bufObj
+		}
+		// definitions of the buffer: make before the read; a reslice [:count] after it (assigned to
+		// the buffer, to req.Payload or to a variable that req.Payload is then set from)
+		var mk, reslice = -1, -1
+		for _, v := range fc.G.V {
+			as, ok := v.Node.(*ast.AssignStmt)
+			if !ok || v.Kind != VStmt || len(as.Lhs) != len(as.Rhs) {
 				continue
 			}
-			r.Fail(rule, "service.(*TCPRelay).handleConn:payload-def:"+exprStr(as), p.posStr(as.Pos()), "the request payload is replaced by something other than the wait buffer / its [:count] reslice")
+			for i, l := range as.Lhs {
+				rhs := ast.Unparen(as.Rhs[i])
+				if isBuf(l) {
+					if c, ok := rhs.(*ast.CallExpr); ok {
+						if id, ok := ast.Unparen(c.Fun).(*ast.Ident); ok && id.Name == "make" {
+							mk = v.ID
+						}
+					}
+				}
+				if sl, ok := rhs.(*ast.SliceExpr); ok && sl.Low == nil && isBuf(sl.X) && cnt != nil && sl.High != nil && objOf(info, sl.High) == cnt {
+					reslice = v.ID
+				}
+			}
+		}
+		for _, d := range payloadDefs {
+			as := fc.G.V[d].Node.(*ast.AssignStmt)
+			if d == mk || d == reslice {
+				continue
+			}
+			okFlow := false
+			for i, l := range as.Lhs {
+				if isReqField(l, "Payload") && i < len(as.Rhs) {
+					if bufIsReq {
+						okFlow = false
+					} else if sliceFlowsFrom(fc, as.Rhs[i], bufObj, 0) && fc.G.ReachAfter(readCall.V, nil, nil)[d] {
+						okFlow = true
+					}
+				}
+			}
+			if !okFlow {
+				r.Fail(rule, "service.(*TCPRelay).handleConn:payload-def:"+exprStr(as), p.posStr(as.Pos()), "the request payload is replaced by something other than the wait buffer / its [:count] reslice")
+			}
 		}
 		okMk := mk >= 0 && fc.G.Dominates([]int{mk}, readCall.V) && fc.G.EdgeDominates(guardEdges, mk)
 		r.Check(okMk, rule, "service.(*TCPRelay).handleConn:wait-buffer", readCall.Pos(), "the read goes into a fresh buffer allocated inside the wait branch", "the wait read does not go into a fresh buffer allocated in the wait branch")
@@ -592,4 +650,32 @@ func c13R5(p *Prog, r *Report) {
 	}
 	r.Check(okRemote, rule, "service.(*TCPRelay).handleConn:remote-closed-after-dial", p.posStr(fc.Body.Pos()), "defer remoteConn.Close() follows every successful dial", "a successfully dialled remote connection is not closed on some exit")
 	r.Floor(rule, 2)
+}
+
+// sliceFlowsFrom: expression e is (a reslice of) variable buf, or of a variable one of whose
+// definitions is such an expression (values handed back by an expanded helper).
+func sliceFlowsFrom(fc *FuncCtx, e ast.Expr, buf types.Object, depth int) bool {
+	if depth > 4 {
+		return false
+	}
+	info := fc.Info()
+	root := sliceRoot(info, e)
+	if root == nil {
+		return false
+	}
+	if root == buf {
+		return true
+	}
+	for _, d := range fc.Defs(root) {
+		as, ok := fc.G.V[d].Node.(*ast.AssignStmt)
+		if !ok || len(as.Lhs) != len(as.Rhs) {
+			continue
+		}
+		for i, l := range as.Lhs {
+			if objOf(info, l) == root && sliceFlowsFrom(fc, as.Rhs[i], buf, depth+1) {
+				return true
+			}
+		}
+	}
+	return false
 }
